@@ -8,7 +8,9 @@ import decsuite as ds
 import gen
 import msggen
 
-THEOREMS = ["C07.c07_prim", "C06.c06_pump_total", "C08.c08_skip_exceeded", "C08.c08_pad_subceeded"]
+THEOREMS = ["C07.c07_prim", "C06.c06_pump_total", "C08.c08_skip_exceeded", "C08.c08_pad_subceeded",
+            "WI.bind", "owner_wi", "bytes_no_own", "decode_wi", "sizedLoop_wi", "decodeCommand_wm", "decodeResponse_wm", "decodeStream_wm",
+            "runWalker_wm", "C08.c08_no_escape_msg", "C08.c08_no_escape_type", "runWalker_mrel"]
 
 
 def allowed_escape(block):
@@ -141,6 +143,6 @@ def run(ctx, replay_case):
     })
 
 
-PROP = {"targets": ["TpmProofs.Props.C08"], "module": "TpmProofs.Props.C08", "theorems": THEOREMS, "run": run,
+PROP = {"targets": ["TpmProofs.Props.C08W"], "module": "TpmProofs.Props.C08W", "theorems": THEOREMS, "run": run,
         "assumptions": ["the whole-run statements (no escape, tiling) are monitored on the implementation and tied to the model by correspondence; "
                         "the recovery steps themselves (skip to the region end, padding) are theorems about the model"]}
